@@ -55,6 +55,7 @@ pub fn pick_opts(seed: u64, idx: u64, mixed: bool) -> world::Opts {
         retention: 3,
         cap_x: None,
         cap_y: None,
+        ext_sender: false,
         sqlite: false,
         backends,
     }
@@ -77,6 +78,7 @@ fn opts_from_json(v: &Value) -> world::Opts {
         retention: v["retention"].as_u64().unwrap_or(3),
         cap_x: None,
         cap_y: None,
+        ext_sender: false,
         sqlite: v["sqlite"].as_bool().unwrap_or(false),
         backends: v["backends"].as_array().map(|a| a.iter().map(|b| match b.as_str().unwrap() { "awslc" => Backend::AwsLc, "rustcrypto" => Backend::RustCrypto, _ => Backend::Openssl }).collect()).unwrap_or(vec![Backend::Openssl]),
     }
